@@ -61,6 +61,12 @@ def templates(rng, g):
     out.append(("dict-miss-value-unneeded", f"(ㄹ (ㄴ {{X}} ㅅㅈㅎㄷ) ㅎㄴ) (ㄴ ㄱㅇㄱ ㅎㄴ ㅎ) ㅅㄷㅎㄷ"))
     out.append(("dict-miss-nested-value-unneeded", f"(ㄹ (ㄴ ({{X}} ㅁㄹㅎㄴ) ㄷ ㄷ ㅅㅈㅎㅁ) ㅎㄴ) (ㄴ ㄱㅇㄱ ㅎㄴ ㅎ) ㅅㄷㅎㄷ"))
     out.append(("dict-miss-uncaught", f"ㄹ (ㄴ {{X}} ㅅㅈㅎㄷ) ㅎㄴ"))
+    # what the *handler* of a ㅅㄷ returns is an ordinary lazy result: elements / values of a container it returns that are never
+    # inspected stay unevaluated (only the protected value is evaluated fully) (seeded change S03j deep-forced the handler's result)
+    out.append(("try-handler-result-elem-unneeded", f"ㄴ ((ㄴ ㄷㅂㅎㄴ ㄷㅈㅎㄴ) ({{X}} ㅈ ㅁㄹㅎㄷ ㅎ) ㅅㄷㅎㄷ) ㅎㄴ"))
+    out.append(("try-handler-result-value-unneeded", f"ㄴ ((ㄴ ㄷㅂㅎㄴ ㄷㅈㅎㄴ) (ㄱ {{X}} ㄴ ㅈ ㅅㅈㅎㅁ ㅎ) ㅅㄷㅎㄷ) ㅎㄴ"))
+    out.append(("try-handler-result-len", f"((ㄱ ㄱ ㄴㄴㅎㄷ) ({{X}} ㅁㄹㅎㄴ ㅎ) ㅅㄷㅎㄷ) ㅈㄷㅎㄴ"))
+    out.append(("try-handler-result-nested", f"ㄱ (ㄴ ((ㄴ ㄷㅂㅎㄴ ㄷㅈㅎㄴ) (({{X}} ㅁㄹㅎㄴ) (ㅈ ㅁㄹㅎㄴ) ㅁㄹㅎㄷ ㅎ) ㅅㄷㅎㄷ) ㅎㄴ) ㅎㄴ"))
     out.append(("try-handler-list-unneeded", f"({gi()} ㅁㄹㅎㄴ) {{X}} ㅅㄷㅎㄷ"))
     out.append(("fold-init-unused", f"(ㄴ ㅁㄹㅎㄴ) {{X}} (ㄴㅇㄱ ㅎ) ㅅㄹㅎㄹ".replace("(ㄴㅇㄱ ㅎ)", "(ㄱㅇㄱ ㅎ)")))
     # arguments handed to a user function *by a built-in* (fold / filter / pipe / spread / collect) that the
@@ -115,7 +121,7 @@ SPEC = {
     'cases': cases,
     'big': True,
     'stream': 'C03 marked-position stream',
-    'rule': '55 templates with a marked non-strict position (unused argument, arguments and list elements passed on by fold / filter / pipe (also results of intermediate pipe stages) / spread / collect / map to functions that ignore them, exception contents built / thrown / caught but not inspected, unselected Boolean branch, operands after the '
+    'rule': '59 templates with a marked non-strict position (unused argument, arguments and list elements passed on by fold / filter / pipe (also results of intermediate pipe stages) / spread / collect / map to functions that ignore them, exception contents built / thrown / caught but not inspected, unselected Boolean branch, operands after the '
             'deciding one of Boolean ㄱ / ㄷ, uninspected list elements / dictionary values, map over unused elements, ㄴ after '
             'the first difference, handler of a ㅅㄷ that does not raise, captured but unused argument) × random surrounding '
             'sub-expressions × 8 payloads (user exception, type error, non-terminating recursion bounded only by the '
